@@ -202,11 +202,25 @@ def callback_summary(prog, g, name):
     path.heap[o.oid].ci = g.transformer
     for k, v in getattr(g, 'transformer_fields', {}).items():
         path.heap[o.oid].fields[k] = v
-    ch = Sym('children', ('b', 'list'))
+    try:
+        fbase = prog.cls('%s.Formula' % LANGS[g.lang])
+        ch = Sym('children', ('b', 'list', ('inst', fbase)))
+    except Exception:
+        ch = Sym('children', ('b', 'list'))
     res = I.call_function(FRef(f), [o, ch], [], path, f.node)
     res = [(p, v) for (p, v) in res if not isinstance(v, Raise)]
     if len(res) != 1:
-        return ('other', 'paths=%d' % len(res), f)
+        # several outcomes: what do they depend on?  If every condition is
+        # about the children themselves (their class, their operands) the
+        # callback *inspects* its operands: its value is not a function of
+        # the children's values alone
+        conds = [c for (p, v) in res for (c, pol) in p.pc]
+        from .values import walk as _walk
+        on_kids = bool(conds) and all(
+            any(x == ch for x in _walk(c)) for c in conds)
+        return ('other', 'paths=%d' % len(res), f,
+                'inspects-children' if on_kids else None,
+                [repr(c)[:80] for c in conds[:3]])
     v = res[0][1]
     if isinstance(v, App) and v.op == 'item' and v.args[0] == ch and \
             isinstance(v.args[1], Const):
